@@ -47,7 +47,8 @@ def gen_target(rng):
             sv = rng.choice(SVCS + [None])
             rules.append(rule('r%d' % (len(rules) + 1), side(), side(), SP + svc_id(sv) if sv else 'ANY', seq=rng.choice([10, 20, 20, 20, 30]),
                               action=rng.choice(['ALLOW', 'ALLOW', 'DROP']), direction=rng.choice(['OUT', 'OUT', 'IN']),
-                              logged=rng.random() < 0.15, tag='T' if rng.random() < 0.1 else ''))
+                              logged=rng.random() < 0.15, tag='T' if rng.random() < 0.1 else '',
+                              sources_excluded=rng.random() < 0.08, destinations_excluded=rng.random() < 0.08, disabled=rng.random() < 0.05))
         c['policies'][pid] = rules
     finish(c)
     return c
@@ -95,7 +96,7 @@ def mutate(rng, tgt):
     for _ in range(rng.choice([0, 1, 1, 2, 2, 3, 4])):
         e = rng.choice(['del_rule', 'ins_rule', 'rename_rule', 'rename_grp', 'grp_add', 'grp_del', 'grp_many_del', 'split_grp', 'share_grp', 'grp_to_ip',
                         'ip_to_grp', 'svc_def', 'rule_srv', 'spare_grp', 'spare_svc', 'action', 'seq', 'clash_rule', 'clash_grp', 'del_policy', 'add_policy',
-                        'dup_grp', 'logged', 'clash_suffix', 'external', 'clash_grp2'])
+                        'dup_grp', 'logged', 'clash_suffix', 'external', 'clash_grp2', 'flag', 'flag'])
         pids = sorted(d['policies'])
         rules = d['policies'][rng.choice(pids)] if pids else None
         if e == 'del_rule' and rules:
@@ -176,6 +177,12 @@ def mutate(rng, tgt):
         elif e == 'logged' and rules:
             r = rng.choice(rules)
             r['logged'] = not r.get('logged')
+        elif e == 'flag' and rules:
+            # a negation or the disabled flag differs; preferably on a rule between two groups
+            cand = [r for r in rules if r['src'].startswith(GP) and r['dst'].startswith(GP)] or rules
+            r = rng.choice(cand)
+            k = rng.choice(['sources_excluded', 'destinations_excluded', 'disabled'])
+            r[k] = not r.get(k)
         elif e == 'clash_rule' and rules is not None:
             tr = [r for rs in tgt['policies'].values() for r in rs]
             if tr:
@@ -242,6 +249,9 @@ def rule_json(r):
         j['logged'] = True
     if r.get('tag'):
         j['tag'] = r['tag']
+    for k in ('sources_excluded', 'destinations_excluded', 'disabled'):
+        if r.get(k):
+            j[k] = True
     return j
 
 
@@ -362,7 +372,9 @@ def conf_from_render(lines):
         elif f[0] == 'R':
             misc = json.loads(f[3])
             c['policies'].setdefault(f[1], []).append(rule(f[2], f[4], f[5], f[6], seq=misc.get('sequence_number', 0), action=misc.get('action', ''),
-                                                           direction=misc.get('direction', ''), logged=misc.get('logged', False), tag=misc.get('tag', '')))
+                                                           direction=misc.get('direction', ''), logged=misc.get('logged', False), tag=misc.get('tag', ''),
+                                                           sources_excluded=misc.get('sources_excluded', False),
+                                                           destinations_excluded=misc.get('destinations_excluded', False), disabled=misc.get('disabled', False)))
         elif f[0] == 'G':
             c['groups'][f[1]] = [x for x in f[2].split(';') if x]
         elif f[0] == 'S':
